@@ -753,14 +753,18 @@ func (w *world) prim(c *chn, op string, st *kernel.Step) {
 			w.checkCrashPoints(c, op, err, before, after, b0, b1)
 		case modeWriteErr:
 			w.checkAfterWriteErr(c, op, before, after)
-			if w.opFailed && op == "sig" && w.res.Violation == nil && c.created {
-				// the caller retries: Sig is idempotent, and once it returns nil the
-				// operation has completed - the store must hold the own signature
-				rerr, rpan := guard(func() error { _, e := c.psm.Sig(w.ctx); return e })
-				w.res.Count("probe.sig-retried-after-write-error", 1)
+			if w.opFailed && w.res.Violation == nil && c.created && op != "create" && op != "close" {
+				// the caller repeats the call that failed. Most operations are then
+				// refused by the machine (it has moved on in memory); the idempotent
+				// ones (Sig, the phase setters that allow a self-transition, a forced
+				// update) go through - and once the repeated call returns nil the
+				// operation has completed: the store must hold exactly the live state
+				rerr, rpan, _ := w.exec(c, op, st)
+				w.res.Count("probe.op-repeated-after-write-error", 1)
 				if rpan == nil && rerr == nil {
+					w.res.Count("probe.repeated-op-succeeded@"+op, 1)
 					live := snapOf(c.m, c.peers, c.parent)
-					w.checkImage(c, "sig (retried after a write error)", dump(w.inner), live, live, true, 0, 0)
+					w.checkImage(c, op+" (repeated after a write error)", dump(w.inner), live, live, true, 0, 0)
 					if w.res.Violation == nil {
 						// healed: the channel carries on
 						w.opFailed = false
